@@ -433,6 +433,8 @@ impl RdbEngine {
                 
                 // Write each key-value pair
                 for key in keys {
+                    #[cfg(feature = "verif")]
+                    crate::verif::yield_point(crate::verif::site::RDB_KEY, db_idx as u64, 0);
                     // Get value
                     match storage.get(db_idx, &key)? {
                         GetResult::Found(value) => {
